@@ -56,6 +56,22 @@ func rowsForValue(a *An, vi visitIndex, ctx *Ctx, v ssa.Value) ([]Row, error) {
 			}
 			return fmt.Errorf("non-integer constant %s in accumulator", x)
 		case *ssa.Phi:
+			// `m = K` while m is still the zero value it started with (all other incoming values are the constant 0) is
+			// `m |= K` under the condition of that edge
+			allConst := true
+			for _, e := range x.Edges {
+				if _, ok := constUint(stripConv(e)); !ok {
+					allConst = false
+				}
+			}
+			if allConst {
+				for i, e := range x.Edges {
+					if k, _ := constUint(stripConv(e)); k != 0 {
+						rows = append(rows, Row{K: k, Kind: "or", Cond: phiEdgeCond(ctx, x, i), Pos: a.P.instrPos(x), In: x})
+					}
+				}
+				return nil
+			}
 			for _, e := range x.Edges {
 				if err := rec(e); err != nil {
 					return err
@@ -113,85 +129,109 @@ func rowsForValue(a *An, vi visitIndex, ctx *Ctx, v ssa.Value) ([]Row, error) {
 // rowsForField: effects on field `field` of local struct cell al inside ctx.Fn.
 func rowsForField(a *An, vi visitIndex, ctx *Ctx, al *ssa.Alloc, field string) ([]Row, error) {
 	var rows []Row
-	refs := al.Referrers()
-	if refs == nil {
-		return nil, nil
+	// every store, in any context of the walk (the translator itself, its closures, helpers that get a pointer to the
+	// cell), to that field of that cell
+	type site struct {
+		vis *Visit
+		st  *ssa.Store
+		fa  *ssa.FieldAddr
 	}
-	for _, r := range *refs {
-		fa, ok := r.(*ssa.FieldAddr)
-		if !ok || fieldName(fa.X.Type(), fa.Field) != field {
-			continue
+	var sites []site
+	for c, m := range vi {
+		for in, vis := range m {
+			st, ok := in.(*ssa.Store)
+			if !ok {
+				continue
+			}
+			fa, ok := st.Addr.(*ssa.FieldAddr)
+			if !ok || fieldName(fa.X.Type(), fa.Field) != field {
+				continue
+			}
+			base, bctx := c.resolve(fa.X)
+			if base != ssa.Value(al) || bctx != ctx {
+				continue
+			}
+			sites = append(sites, site{vis, st, fa})
 		}
-		if fr := fa.Referrers(); fr != nil {
-			for _, u := range *fr {
-				st, ok := u.(*ssa.Store)
-				if !ok || st.Addr != ssa.Value(fa) {
-					continue
-				}
-				vis := vi[ctx][st]
-				if vis == nil {
-					continue // dead
-				}
-				val := stripConv(st.Val)
-				if k, ok := constUint(val); ok {
-					if k != 0 {
-						rows = append(rows, Row{K: k, Kind: "assign", Cond: vis.Local, Pos: a.P.instrPos(st), In: st})
-					}
-					continue
-				}
-				b, ok := val.(*ssa.BinOp)
-				if !ok {
-					// the accumulated value may be computed by a pure helper (e.Op = opsFromMask(mask)) or held in a local
-					if rv, rc := ctx.resolve(val); rv != val || rc != ctx {
-						switch rv.(type) {
-						case *ssa.Phi, *ssa.BinOp:
-							vrows, err := rowsForValue(a, vi, rc, rv)
-							if err != nil {
-								return nil, err
-							}
-							rows = append(rows, vrows...)
-							continue
-						}
-					}
-					return nil, fmt.Errorf("field %s is assigned a non-tabular value at %s: %s", field, a.P.instrPos(st), st.Val)
-				}
-				var k uint64
-				var other ssa.Value
-				if kk, ok := ctx.constUint(b.Y); ok {
-					k, other = kk, b.X
-				} else if kk, ok := ctx.constUint(b.X); ok {
-					k, other = kk, b.Y
-				} else {
-					// data-driven form: |= row.value under a test of the input against row.flag, for a constant package table
-					if trows, isT, err := expandTableRows(a, ctx, b, vis.Local, a.P.instrPos(st), st); isT {
-						if err != nil {
-							return nil, err
-						}
-						rows = append(rows, trows...)
-						continue
-					}
-					return nil, fmt.Errorf("field %s combined with a non-constant at %s", field, a.P.instrPos(st))
-				}
-				// other must be a load of the same field of the same cell
-				ld, ok := stripConv(other).(*ssa.UnOp)
-				okLoad := false
-				if ok && ld.Op == token.MUL {
-					if fa2, ok := ld.X.(*ssa.FieldAddr); ok && fa2.X == fa.X && fa2.Field == fa.Field {
-						okLoad = true
-					}
-				}
-				if !okLoad {
-					return nil, fmt.Errorf("field %s is overwritten (not accumulated) at %s", field, a.P.instrPos(st))
-				}
-				switch b.Op {
-				case token.OR:
-					rows = append(rows, Row{K: k, Kind: "or", Cond: vis.Local, Pos: a.P.instrPos(st), In: st})
-				case token.AND_NOT:
-					rows = append(rows, Row{K: k, Kind: "clear", Cond: vis.Local, Pos: a.P.instrPos(st), In: st})
-				default:
-					return nil, fmt.Errorf("field %s updated by %s at %s", field, b.Op, a.P.instrPos(st))
+	}
+	sort.Slice(sites, func(i, j int) bool { return sites[i].vis.Seq < sites[j].vis.Seq })
+	// the cell must not be handed to code that is not part of the walk
+	for c, m := range vi {
+		for in := range m {
+			call, ok := in.(*ssa.Call)
+			if !ok {
+				continue
+			}
+			for _, arg := range call.Call.Args {
+				if base, bctx := c.resolve(arg); base == ssa.Value(al) && bctx == ctx && c.calleeCtx(call, &call.Call) == nil {
+					return nil, fmt.Errorf("the address of the accumulator is passed to %s at %s, which is not analysed", call.Call.Value.Name(), a.P.instrPos(call))
 				}
 			}
+		}
+	}
+	for _, s := range sites {
+		vis, st, fa, c := s.vis, s.st, s.fa, s.vis.Ctx
+		cond := vis.Cond
+		val := stripConv(st.Val)
+		if k, ok := c.constUint(val); ok {
+			if k != 0 {
+				rows = append(rows, Row{K: k, Kind: "assign", Cond: cond, Pos: a.P.instrPos(st), In: st})
+			}
+			continue
+		}
+		b, ok := val.(*ssa.BinOp)
+		if !ok {
+			// the accumulated value may be computed by a pure helper (e.Op = opsFromMask(mask)) or built in a local
+			// (`var op Op; if ... { op |= X }; e.Op = op`)
+			rv, rc := c.resolve(val)
+			switch rv.(type) {
+			case *ssa.Phi, *ssa.BinOp:
+				vrows, err := rowsForValue(a, vi, rc, rv)
+				if err != nil {
+					return nil, err
+				}
+				rows = append(rows, vrows...)
+				continue
+			}
+			return nil, fmt.Errorf("field %s is assigned a non-tabular value at %s: %s", field, a.P.instrPos(st), st.Val)
+		}
+		var k uint64
+		var other ssa.Value
+		if kk, ok := c.constUint(b.Y); ok {
+			k, other = kk, b.X
+		} else if kk, ok := c.constUint(b.X); ok {
+			k, other = kk, b.Y
+		} else {
+			// data-driven form: |= row.value under a test of the input against row.flag, for a constant package table
+			if trows, isT, err := expandTableRows(a, c, b, vis.Local, a.P.instrPos(st), st); isT {
+				if err != nil {
+					return nil, err
+				}
+				rows = append(rows, trows...)
+				continue
+			}
+			return nil, fmt.Errorf("field %s combined with a non-constant at %s", field, a.P.instrPos(st))
+		}
+		// other must be a load of the same field of the same cell
+		ld, ok := stripConv(other).(*ssa.UnOp)
+		okLoad := false
+		if ok && ld.Op == token.MUL {
+			if fa2, ok := ld.X.(*ssa.FieldAddr); ok && fa2.Field == fa.Field {
+				if b2, c2 := c.resolve(fa2.X); b2 == ssa.Value(al) && c2 == ctx {
+					okLoad = true
+				}
+			}
+		}
+		if !okLoad {
+			return nil, fmt.Errorf("field %s is overwritten (not accumulated) at %s", field, a.P.instrPos(st))
+		}
+		switch b.Op {
+		case token.OR:
+			rows = append(rows, Row{K: k, Kind: "or", Cond: cond, Pos: a.P.instrPos(st), In: st})
+		case token.AND_NOT:
+			rows = append(rows, Row{K: k, Kind: "clear", Cond: cond, Pos: a.P.instrPos(st), In: st})
+		default:
+			return nil, fmt.Errorf("field %s updated by %s at %s", field, b.Op, a.P.instrPos(st))
 		}
 	}
 	return rows, nil
